@@ -172,7 +172,7 @@ CHECKS = {
                  "failed matching, connection closed, late data reaches the matched handler. Non-trivial = sub-second timeout, non-zero phase or non-silent schedule."),
         "assumptions": ["upper time bounds are judged with slack >= 1 s and only if they reproduce three times in isolation; lower bounds are exact up to 5 ms",
                         "UDP cases use the virtual connection without the server loop (closing on failure is covered on the TCP path and in C09)"],
-        "min_classes": {"quick": {"C05/udp": 40, "C05/tcp": 80, "C05/schedule/trickle": 40, "C05/routes/subroute": 8, "C05/routes/match-then-slow": 8, "C05/routes/nonterminal-then-never": 8, "C05/routes/subroute-fallthrough-then-slow": 8, "C05/routes/consume-then-never": 8}},
+        "min_classes": {"quick": {"C05/udp": 40, "C05/tcp": 80, "C05/schedule/trickle": 40, "C05/routes/subroute": 8, "C05/routes/match-then-slow": 8, "C05/routes/nonterminal-then-never": 8, "C05/routes/subroute-fallthrough-then-slow": 8, "C05/routes/consume-then-never": 8, "C05/routes/never-or-no": 8}},
         "runs": [
             {"name": "bounds", "pkg": "./c05", "run": ".", "rapid_checks": {"quick": 6, "thorough": 80},
              "shards": {"quick": 5, "thorough": 16}, "timeout": {"quick": 600, "thorough": 7200}},
@@ -201,10 +201,11 @@ CHECKS = {
                  "consumed by a non-terminal handler, no route matches, TLS-terminated then falling through; streams up to ~20 KiB, segmented or not; the Accept consumer pauses "
                  "0-6 ms between accepts and may start 10-80 ms late (hand-over channel exceeded); the listener is closed at the end or after 0-60 ms (connections in flight). "
                  "Oracle: per connection delivered exactly once with exactly its unconsumed stream (TLS: plaintext and ConnectionState) or never delivered and closed; Accept "
-                 "reports net.ErrClosed after Close and keeps doing so; no goroutine with a layer4.(*listener) frame after 5 s. Non-trivial = >= 2 outcome kinds with a "
+                 "reports net.ErrClosed after Close and keeps doing so; no goroutine with a layer4.(*listener) frame after 5 s. Plus single connections through routes whose "
+                 "matchers never read (remote_ip / local_ip / not), handed over at once, whose client sends 0-1.5 matching timeouts later to a consumer that arms no deadline. Non-trivial = >= 2 outcome kinds with a "
                  "fall-through that carried prefetched bytes."),
         "assumptions": ["after an early close a pending connection may either be delivered once or be closed", "timing is only used as a bound on waiting, never as a verdict on its own"],
-        "min_classes": {"quick": {"C13/early-close": 20, "C13/slow-consumer": 40, "C13/no-consumer-until-close": 10, "C13/delivered": 400}},
+        "min_classes": {"quick": {"C13/early-close": 20, "C13/slow-consumer": 40, "C13/no-consumer-until-close": 10, "C13/delivered": 400, "C13/hand-over-without-prefetch": 100}},
         "runs": [
             {"name": "wrapper", "pkg": "./c13", "run": ".", "rapid_checks": {"quick": 40, "thorough": 2500},
              "shards": {"quick": 4, "thorough": 16}, "timeout": {"quick": 600, "thorough": 7200}},
